@@ -367,6 +367,7 @@ class FKF:
         Gk = Sigma_q_ @ (np.linalg.inv(Sigma_q_ + Sigma_v))     # Kalman Gain
         Sigma_q = (np.identity(4) - Gk) @ Sigma_q_              # Updated Covariance
         q = q_ + Gk @ (q_am - q_)                               # Updated State
+        q /= np.linalg.norm(q)                                  # The state is a versor
         return q, Sigma_q
 
     def measurement_quaternion_acc_mag(self, q: np.ndarray, acc: np.ndarray, mag: np.ndarray) -> Tuple[np.ndarray, np.ndarray]:
